@@ -109,6 +109,67 @@ func ModelDump(d *meta.Data) string {
 			w(" %s %d", tok(k), int(u.Privileges[k]))
 		}
 	}
+	// ---- second layer (OG/Meta/Wire2.lean `pExt`) ----
+	w(" E %s %s %d %d %d", b01(d.TakeOverEnabled), b01(d.BalancerEnabled), d.MaxStreamID, d.MaxSubscriptionID, d.MaxCQChangeID)
+	w(" T %d", len(d.Streams))
+	for _, k := range sortedKeys(d.Streams) {
+		st := d.Streams[k]
+		name := k
+		if st.Name != k {
+			name = k + "!=" + st.Name
+		}
+		src, dst := st.SrcMst, st.DesMst
+		if src == nil {
+			src = &meta.StreamMeasurementInfo{}
+		}
+		if dst == nil {
+			dst = &meta.StreamMeasurementInfo{}
+		}
+		w(" %s %d %s %s %s %s %s %s %d %d", tok(name), st.ID, tok(src.Database), tok(src.RetentionPolicy), tok(src.Name),
+			tok(dst.Database), tok(dst.RetentionPolicy), tok(dst.Name), int64(st.Interval), int64(st.Delay))
+	}
+	type subEntry struct {
+		db, rp string
+		subs   []meta.SubscriptionInfo
+	}
+	var ses []subEntry
+	for _, k := range sortedKeys(d.Databases) {
+		db := d.Databases[k]
+		for _, rk := range sortedKeys(db.RetentionPolicies) {
+			if rp := db.RetentionPolicies[rk]; len(rp.Subscriptions) > 0 {
+				ses = append(ses, subEntry{k, rk, rp.Subscriptions})
+			}
+		}
+	}
+	w(" S %d", len(ses))
+	for _, e := range ses {
+		w(" %s %s %d", tok(e.db), tok(e.rp), len(e.subs))
+		for _, sub := range e.subs {
+			w(" %s %s", tok(sub.Name), tok(sub.Mode))
+		}
+	}
+	nq := 0
+	for _, k := range sortedKeys(d.Databases) {
+		if len(d.Databases[k].ContinuousQueries) > 0 {
+			nq++
+		}
+	}
+	w(" C %d", nq)
+	for _, k := range sortedKeys(d.Databases) {
+		cqs := d.Databases[k].ContinuousQueries
+		if len(cqs) == 0 {
+			continue
+		}
+		w(" %s %d", tok(k), len(cqs))
+		for _, qk := range sortedKeys(cqs) {
+			q := cqs[qk]
+			name := qk
+			if q.Name != qk {
+				name = qk + "!=" + q.Name
+			}
+			w(" %s %s %d", tok(name), strings.ReplaceAll(q.Query, " ", "_"), q.LastRunTime.UnixNano())
+		}
+	}
 	return b.String()
 }
 
